@@ -313,7 +313,9 @@ func (w *c07RaceWorker) derived(h *gorm.DB, mode string, run func(*gorm.DB) stri
 		if tx.Error != nil {
 			return "begin " + c07ErrClass(tx.Error)
 		}
+		w.inTx = true
 		s := run(tx)
+		w.inTx = false
 		err := tx.Commit().Error
 		return s + " commit " + c07ErrClass(err)
 	case "connection":
@@ -324,7 +326,9 @@ func (w *c07RaceWorker) derived(h *gorm.DB, mode string, run func(*gorm.DB) stri
 		return s + " conn " + c07ErrClass(err)
 	case "transaction":
 		s := ""
+		w.inTx = true
 		err := h.Transaction(func(tx *gorm.DB) error { s = run(tx); return nil })
+		w.inTx = false
 		return s + " tx " + c07ErrClass(err)
 	}
 	return run(h)
